@@ -196,6 +196,11 @@ func main() {
 	}
 	// ev.Start first: it re-executes the binary as a supervised worker, so nothing expensive may precede it
 	r := ev.Start("C07", "exploration")
+	// glibc malloc in the (plain) server processes: no mmap per large buffer and no trimming, so that the
+	// multi-megabyte objects and buffers that are allocated and freed per job reuse warm pages
+	os.Setenv("MALLOC_MMAP_THRESHOLD_", "1073741824")
+	os.Setenv("MALLOC_TRIM_THRESHOLD_", "4294967295")
+	os.Setenv("MALLOC_TOP_PAD_", "67108864")
 	scratch, mine, err := cserve.Scratch()
 	if err != nil {
 		ev.Fatal("%v", err)
